@@ -105,6 +105,11 @@ class BinOp(HarnessBase):
             # history: the operands were constructed in another unit and converted IN PLACE to (lu, ru) before the operation
             x = mk(env, self.lk, 'a', self.pre[0] or self.lu, self.iv)
             y = mk(env, self.rk, 'b', self.pre[1] or self.ru, self.iv)
+            # ... after having been converted (copies, discarded) to every unit of their kind, as earlier use would have done
+            for q_ in (x, y):
+                if hasattr(q_, 'unit'):
+                    for u_ in si.units_of(type(q_).__name__):
+                        q_.to(u_)
             if self.pre[0]:
                 x.to(self.lu, inplace=True)
             if self.pre[1]:
